@@ -435,7 +435,7 @@ impl Prop for C14 {
                 }
             }
         }
-        let mut compare = |name: &str, ob: &Obs, out: &mut CaseOut| {
+        let compare = |name: &str, ob: &Obs, out: &mut CaseOut| {
             // destination + request bytes
             if oa.sends != ob.sends {
                 let (i, what) = oa
